@@ -18,9 +18,11 @@ def _verdict(req, impl, model):
             return "disagree"          # the oracle itself contradicts the recording: a model bug
         return "skip" if model.startswith("OUT-OF-FRAGMENT") else "agree"
     # op == "run": CLI against the model
-    if impl.startswith("DOCUMENTED-DIVERGENCE") or "OUT-OF-FRAGMENT" in model:
+    if impl.startswith("DOCUMENTED-DIVERGENCE"):
         return "skip"
-    if impl in ("NO-CLI", "PANIC"):
+    if "OUT-OF-FRAGMENT" in model:
+        return "skip"
+    if impl in ("NO-CLI", "PANIC") or impl.startswith("CLI-COMPILE-ERROR") or impl.startswith("CLI-OUTPUT-BEFORE-MARKER"):
         return "disagree"
     return "agree" if impl == model else "disagree"
 
